@@ -37,7 +37,10 @@ type Lock interface {
 }
 
 type lock struct {
-	// queues stores per-key FIFO queues of waiting callers.
+	// queues stores per-key FIFO queues of waiting callers. An entry exists only
+	// while its queue has callers (or a caller is just about to enqueue): remove()
+	// retires the queue and drops the entry when the last caller leaves, so the map
+	// does not grow with the number of distinct keys ever locked.
 	queues sync.Map // map[string]*queue
 }
 
@@ -64,6 +67,11 @@ type caller struct {
 type queue struct {
 	mu      sync.Mutex
 	callers []*caller
+	// retired is set (under mu) by remove() when the last caller has left and the
+	// queue has been dropped from lock.queues. A retired queue never accepts a
+	// caller again: a Lock() that still holds a pointer to it must fetch a fresh
+	// queue, otherwise two callers could hold the same key through two queues.
+	retired bool
 }
 
 func newQueue() *queue {
@@ -71,22 +79,29 @@ func newQueue() *queue {
 }
 
 // enqueue appends a new caller. If it lands at the head (queue was empty),
-// its ready channel is pre-closed so it can proceed immediately.
-func (q *queue) enqueue(c *caller) {
+// its ready channel is pre-closed so it can proceed immediately. It returns
+// false, without enqueueing, when the queue has been retired meanwhile.
+func (q *queue) enqueue(c *caller) bool {
 	q.mu.Lock()
 	defer q.mu.Unlock()
+	if q.retired {
+		return false
+	}
 	wasEmpty := len(q.callers) == 0
 	q.callers = append(q.callers, c)
 	if wasEmpty {
 		close(c.ready)
 	}
 	verifhook.Point("lock.enqueue", verifhook.Ref(q), verifhook.Ref(c), int64(len(q.callers)))
+	return true
 }
 
 // remove deletes the caller with the given id from the queue. If the removed
 // caller was at the head, the next caller's ready channel is closed so it can
-// proceed. Returns true if the caller was found.
-func (q *queue) remove(id string) bool {
+// proceed. When the queue becomes empty it is retired and its entry is dropped
+// from the key map (both under q.mu, so no caller can slip in between).
+// Returns true if the caller was found.
+func (l *lock) remove(key string, q *queue, id string) bool {
 	q.mu.Lock()
 	defer q.mu.Unlock()
 	for i, c := range q.callers {
@@ -102,6 +117,10 @@ func (q *queue) remove(id string) bool {
 		if wasHead && len(q.callers) > 0 {
 			// Wake the next waiter.
 			close(q.callers[0].ready)
+		}
+		if len(q.callers) == 0 {
+			q.retired = true
+			l.queues.CompareAndDelete(key, q)
 		}
 		verifhook.Point("lock.remove", verifhook.Ref(q), verifhook.Ref(c), int64(i), int64(len(q.callers)))
 		return true
@@ -128,7 +147,11 @@ func (l *lock) Lock(ctx context.Context, key string, ttl time.Duration) (lockID 
 	}
 
 	q := l.getQueue(key)
-	q.enqueue(c)
+	for !q.enqueue(c) {
+		// The queue was retired between getQueue and enqueue; its map entry is
+		// already gone, so this fetches (or creates) the live queue of the key.
+		q = l.getQueue(key)
+	}
 
 	// Wait until either we become the head of the queue (ready closed),
 	// or the caller's context is done.
@@ -144,7 +167,7 @@ func (l *lock) Lock(ctx context.Context, key string, ttl time.Duration) (lockID 
 			defer t.Stop()
 			select {
 			case <-t.C:
-				q.remove(lockID)
+				l.remove(key, q, lockID)
 			case <-c.done:
 				// Unlock (or another remove) already took us out;
 				// no work for the watchdog.
@@ -158,7 +181,7 @@ func (l *lock) Lock(ctx context.Context, key string, ttl time.Duration) (lockID 
 		// (race window: enqueue closed our ready right after we entered
 		// select), remove() still does the right thing — it wakes the
 		// next waiter when removing the head.
-		q.remove(lockID)
+		l.remove(key, q, lockID)
 		return "", errors.New("lock timeout")
 	}
 }
@@ -174,7 +197,7 @@ func (l *lock) Unlock(key string, lockID string) error {
 		return errors.New("caller not found")
 	}
 	q := v.(*queue)
-	if !q.remove(lockID) {
+	if !l.remove(key, q, lockID) {
 		return errors.New("caller not found")
 	}
 	return nil
